@@ -467,3 +467,61 @@ def compare_cap(cases, epg, tol=1e-9):
         if probs:
             dis.append({"kind": "c13-cap", "problems": probs, "input": case})
     return checked, dis, dist
+
+
+def search_axis_grids(r, epg, ncase):
+    """per-axis `kgrid` forms (scalar, one value per axis, fewer values than axes = last one repeated, more values than
+    axes = cropped) on the merging and pruning back-ends vs the integer n-D back-end.  The first axis uses a coarse cell
+    (2.0) and shifts that are multiples of it, the other axes the fine cell (0.25) and unit shifts: every form is exact, and
+    a form that sends the coarse cell to another axis merges states one unit apart there."""
+    dis, checked = [], 0
+    for _ in range(ncase):
+        dim = 3 if r.random() < 0.7 else 2
+        scale = np.array([2] + [1] * (dim - 1))
+        plan = []
+        for _ in range(int(r.integers(4, 10))):
+            plan.append(("pt", prog.gen_op(r, POINT[r.integers(len(POINT))])))
+            v = r.integers(-2, 3, size=dim)
+            v[:-1] *= r.random(dim - 1) < 0.4  # mostly along the last axis: neighbouring states differ there alone
+            if not v.any():
+                v[-1] = 1
+            plan.append(("S", (v * scale).tolist()))
+        forms = {"scalar-fine": 0.25, "full": [2.0] + [0.25] * (dim - 1), "short": [2.0, 0.25], "one": [0.25],
+                 "long": [2.0, 0.25, 0.25, 0.25, 0.5, 7.0][: dim + 2], "array-short": np.array([2.0, 0.25])}
+
+        def run(form, way):
+            sm = epg.StateMatrix(shape=(2,)) if way == "prune" else epg.StateMatrix()
+            for kind, o in plan:
+                if kind == "pt":
+                    op = prog.to_epg(o, epg)
+                elif form is None:
+                    op = epg.S(np.array([o], dtype=int), prune=0)
+                elif way == "merge":
+                    op = epg.S(np.array([o], dtype=float), kgrid=forms[form], prune=0)
+                else:
+                    op = epg.S(np.array([[o], [o]], dtype=float).reshape(2, dim), kgrid=forms[form], prune=0)
+                sm = op(sm, inplace=True)
+            return sm
+
+        try:
+            with warnings.catch_warnings():
+                warnings.simplefilter("ignore")
+                ref = _content(run(None, "nd"))
+                res = {(f, w): _content(run(f, w)) for f in forms for w in ("merge", "prune")}
+        except Exception as exc:
+            dis.append({"kind": "c04-axis-grids", "problems": [("raised", repr(exc))], "input": {"plan": plan, "dim": dim}})
+            continue
+        checked += 1
+        probs = []
+        for (f, w), c in res.items():
+            for key in set(ref) | set(c):
+                a = ref.get(key, np.zeros(3)); b = c.get(key, np.zeros(3))
+                if np.max(np.abs(a - b)) > 1e-9:
+                    probs.append((f"kgrid form {f} ({forms[f]!r}) on the {w} back-end and the integer back-end hold different states at wavenumber",
+                                  key, np.asarray(a).tolist(), np.asarray(b).tolist()))
+                    break
+            if probs:
+                break
+        if probs:
+            dis.append({"kind": "c04-axis-grids", "problems": probs, "input": {"plan": plan, "dim": dim}})
+    return checked, dis
